@@ -131,3 +131,21 @@ Theorem C19_filter_section_unbound_refuted :
     read_filters crc32c (fun _ => true) file' b = Some fs' /\ fs' <> fs.
 Proof. exact filter_section_unbound. Qed.
 Print Assumptions C19_filter_section_unbound_refuted.
+
+(* ---- kernel ties (DESIGN.md 10.7).  The Go functions the theorems above are about are translated
+   from the current source on every run (Generated/Kernels.v); each tie states that the translated
+   function equals the model definition used above, on the whole range of the Go types
+   (Generated/KernelTie.v; `True` for a kernel the translator reports as not translated). ---- *)
+From BS Require Import Generated.KernelTie Proofs.KTie_validate_fs Proofs.KTie_validate Proofs.KTie_plan_reads.
+
+Theorem C19_kernel_tie_validate_fs : tie_validate_fs.
+Proof. exact k_validate_fs_tie. Qed.
+Print Assumptions C19_kernel_tie_validate_fs.
+
+Theorem C19_kernel_tie_validate : tie_validate.
+Proof. exact k_validate_tie. Qed.
+Print Assumptions C19_kernel_tie_validate.
+
+Theorem C19_kernel_tie_plan_reads : tie_plan_reads.
+Proof. exact k_plan_reads_tie. Qed.
+Print Assumptions C19_kernel_tie_plan_reads.
